@@ -125,11 +125,12 @@ def c1_ownership(fb, rep):
             continue
         divs = set()
         masks = set()
+        p0 = (f.d.get('params') or [{}])[0].get('id')
         for b, i, e in f.events():
             for n2 in walk(e):
-                if n2.get('k') == 'bin' and n2.get('op') == '/' and isinstance(n2.get('l'), dict) and n2['l'].get('n') == 'idx' and 'cv' in (n2.get('r') or {}):
+                if n2.get('k') == 'bin' and n2.get('op') == '/' and isinstance(n2.get('l'), dict) and n2['l'].get('id') == p0 and 'cv' in (n2.get('r') or {}):
                     divs.add(n2['r']['cv'])
-                if n2.get('k') == 'bin' and n2.get('op') == '&' and isinstance(n2.get('l'), dict) and n2['l'].get('n') == 'idx' and 'cv' in (n2.get('r') or {}):
+                if n2.get('k') == 'bin' and n2.get('op') == '&' and isinstance(n2.get('l'), dict) and n2['l'].get('id') == p0 and 'cv' in (n2.get('r') or {}):
                     masks.add(n2['r']['cv'])
         rep.ob(clause, 'K11 constant agreement', '%s: byte index split agrees with the slot size' % name.split('::')[-1],
                divs == {slot} and masks == {slot - 1}, f.where, 'divisors %s masks %s slot size %s' % (sorted(divs), sorted(masks), slot), name)
@@ -428,12 +429,12 @@ def c4_plyshift(fb, rep):
     if not rep.need(clause, g, ENT + '::getScore') or not rep.need(clause, s, ENT + '::setScore'):
         return
 
-    def shifts(f, var):
+    def shifts(f, var_ids, ply_id):
         out = {}
         for b, i, e in f.events():
-            if e.get('k') == 'asg' and e.get('op') in ('+=', '-=') and isinstance(e.get('l'), dict) and e['l'].get('n') == var:
+            if e.get('k') == 'asg' and e.get('op') in ('+=', '-=') and isinstance(e.get('l'), dict) and e['l'].get('id') in var_ids:
                 r = _strip(e.get('r'))
-                if isinstance(r, dict) and r.get('k') == 'var' and r.get('n') == 'ply':
+                if isinstance(r, dict) and r.get('k') == 'var' and r.get('id') == ply_id:
                     # predicate guarding it
                     pred = None
                     for d in f.dominators().get(b, set()):
@@ -446,8 +447,9 @@ def c4_plyshift(fb, rep):
                                 pred = cname(ce).split('::')[-1]
                     out[pred] = out.get(pred, []) + [e['op']]
         return out
-    gs = shifts(g, 'sc')
-    ss = shifts(s, 'score')
+    ret_ids = {n.get('id') for _, _, e in g.events() if e.get('k') == 'ret' for n in walk(e.get('e') or {}) if n.get('k') == 'var' and n.get('vk') == 'local'}
+    gs = shifts(g, ret_ids, g.d['params'][0]['id'])
+    ss = shifts(s, {s.d['params'][0]['id']}, s.d['params'][1]['id'])
     want_set = {'isWinScore': ['+='], 'isLoseScore': ['-=']}
     want_get = {'isWinScore': ['-='], 'isLoseScore': ['+=']}
     rep.ob(clause, 'K10 sibling agreement', 'setScore: win scores += ply, lose scores -= ply', ss == want_set, s.where, str(ss), s.sname)
@@ -512,12 +514,8 @@ def c5_bucket(fb, rep):
     up = fb.find1(TT + '::updateTB')
     if rep.need(clause, up, TT + '::updateTB'):
         slot = (fb.record(STO) or {}).get('size') or 16
-        tb = None
-        for b, i, e in up.events():
-            if e.get('k') == 'decl':
-                for v in e.get('vars', []):
-                    if v.get('n') == 'tbSize' and isinstance(v.get('init'), dict):
-                        tb = v['init'].get('cv')
+        from . import C12
+        tb = C12.tb_size_roles(up)[2]
         rep.ob(clause, 'K11 constant agreement', 'tablebase region is a whole number of buckets', tb is not None and tb % slot == 0 and (tb // slot) % 4 == 0,
                up.where, 'tbSize %s slot %s' % (tb, slot), up.sname)
 
